@@ -189,45 +189,48 @@ theorem reachable_inv (perShard : Bool) (target : Nat) (ks0 : Option K) (evs : L
     Inv (run (Pool.init perShard target ks0) evs) :=
   inv_run (inv_init perShard target ks0) evs
 
-private theorem results_of_resp {p : Pool K} (h : Inv p) (t : Keyspace.Task K) (ht : t ∈ p.tasks)
-    (hr : t.resp = some .ok ∨ t.resp = some (.err .broken)) (i : Nat) (hi : i ∈ t.snapshot)
-    (hb : (p.net i).broken = false) : t.results.lookup i = some (.ok ()) := by
-  have hresp : ∃ o, t.resp = some o ∧ (o = .ok ∨ o = .err .broken) := by
-    rcases hr with h1 | h1
-    · exact ⟨_, h1, Or.inl rfl⟩
-    · exact ⟨_, h1, Or.inr rfl⟩
-  obtain ⟨o, ho, hoo⟩ := hresp
-  rcases h.resp t ht o ho with ⟨hnil, _⟩ | h2 | ⟨hdone, hres⟩
-  · rw [hnil] at hi; cases hi
-  · subst h2; rcases hoo with h3 | h3 <;> cases h3
-  · unfold Task.allDone at hdone
-    have hsome := List.all_eq_true.mp hdone i hi
-    obtain ⟨r, hr'⟩ := Option.isSome_iff_exists.mp hsome
-    have hmem : r ∈ t.resultList := by
-      unfold Task.resultList
-      exact List.mem_filterMap.mpr ⟨i, hi, hr'⟩
-    have hcase : r = .ok () ∨ r = .error .broken := by
-      rcases hoo with h3 | h3
-      · subst h3; exact ((useKeyspaceResult_ok_iff _).mp hres.symm).1 r hmem
-      · subst h3; exact Or.inr (((useKeyspaceResult_broken_iff _).mp hres.symm).1 r hmem)
-    rcases hcase with h4 | h4
-    · rw [hr', h4]
-    · rw [h4] at hr'
-      have := h.res_broken t ht i hr'
-      rw [hb] at this; cases this
-
-/-- **published_has_keyspace**.  In every reachable state in which no two use-keyspace requests overlapped
-(the documented usage: "call only one `use_keyspace` at a time"), once the newest request `L` has been
-answered Ok — or with a broken-connection error, which the node-level fan-out tolerates — every published
-connection that is not broken has keyspace `L.ks` set at the server, and that is the pool's current keyspace.
+/-- **published_has_keyspace**.  In every reachable state — whatever happened before, overlapping requests
+included — in which the NEWEST use-keyspace request `L` arrived when no older one was unanswered
+(`overlap = false`: the documented usage "call only one `use_keyspace` at a time", re-evaluated at every
+request, so one past overlap does not spoil the future) and `L` has been answered Ok — or with a
+broken-connection error, which the node-level fan-out tolerates —: every published connection that is not
+broken, and on which no user-issued `USE` statement was written after `L`'s own `USE`, has keyspace `L.ks` set
+at the server and NO `USE` in flight that could still change it (a `USE` left in flight by an older, timed-out
+request was served before `L`'s: connections are FIFO); `L.ks` is the pool's current keyspace.
 Since this holds in every later state too (until the next request arrives), it covers every later request,
 connections opened afterwards or concurrently included: they are not published before. -/
 theorem published_has_keyspace (perShard : Bool) (target : Nat) (ks0 : Option K) (evs : List (Ev K)) :
     let p := run (Pool.init perShard target ks0) evs
     p.overlap = false → ∀ L, p.latest = some L → (L.resp = some .ok ∨ L.resp = some (.err .broken)) →
       p.currentKs = some L.ks ∧
-      ∀ i ∈ p.conns, (p.net i).broken = false → (p.net i).serverKs = some L.ks := by
+      ∀ i ∈ p.conns, (p.net i).broken = false → (p.net i).userMark = false →
+        (p.net i).serverKs = some L.ks ∧ (p.net i).queue = [] := by
   intro p hov L hL hresp
+  exact published_of_inv (reachable_inv perShard target ks0 evs) hov L hL hresp
+
+/-- Before any use-keyspace request (a pool created with the session's keyspace, e.g. for a newly
+discovered node): every published live connection (no user-issued `USE` on it) has the pool's initial keyspace. -/
+theorem published_has_initial_keyspace (perShard : Bool) (target : Nat) (ks0 : Option K) (evs : List (Ev K)) :
+    let p := run (Pool.init perShard target ks0) evs
+    p.overlap = false → p.tasks = [] →
+      ∀ i ∈ p.conns, (p.net i).broken = false → (p.net i).userMark = false →
+        (p.net i).serverKs = p.currentKs ∧ (p.net i).queue = [] := by
+  intro p hov ht
+  have hs := (reachable_inv perShard target ks0 evs).strong hov
+  unfold Strong at hs
+  rw [ht] at hs
+  exact hs
+
+/-- While the newest request is still running (no overlap): on every published live connection on which its
+`USE` has been written and not yet answered (and no user `USE` behind it), that `USE` is the LAST statement in
+flight — whatever older, timed-out requests left in flight is ahead of it and will be served first. -/
+theorem newest_use_is_last_in_flight (perShard : Bool) (target : Nat) (ks0 : Option K) (evs : List (Ev K)) :
+    let p := run (Pool.init perShard target ks0) evs
+    p.overlap = false → ∀ L, p.latest = some L → L.resp = none →
+      ∀ i ∈ p.conns, (p.net i).broken = false → (p.net i).userMark = false → i ∈ L.submitted →
+        L.results.lookup i = none →
+        ∃ pre, (p.net i).queue = pre ++ [(.task L.id, L.ks)] ∧ ∀ e ∈ pre, e.1 ≠ .task L.id := by
+  intro p hov L hL hal i hi hb hm hsub hlk
   have h : Inv p := reachable_inv perShard target ks0 evs
   have hs := h.strong hov
   unfold Strong at hs
@@ -238,23 +241,8 @@ theorem published_has_keyspace (perShard : Bool) (target : Nat) (ks0 : Option K)
     rw [htasks] at hL hs
     simp only [List.head?_cons, Option.some.injEq] at hL
     subst hL
-    refine ⟨hs.1, fun i hi hb => ?_⟩
-    have := hs.2.2 i hi hb
-    by_cases hsn : i ∈ L'.snapshot
-    · exact this.1 hsn (results_of_resp h L' (by rw [htasks]; exact List.mem_cons_self) hresp i hsn hb)
-    · exact this.2 hsn
-
-/-- Before any use-keyspace request (a pool created with the session's keyspace, e.g. for a newly
-discovered node): every published live connection has the pool's initial keyspace. -/
-theorem published_has_initial_keyspace (perShard : Bool) (target : Nat) (ks0 : Option K) (evs : List (Ev K)) :
-    let p := run (Pool.init perShard target ks0) evs
-    p.overlap = false → p.tasks = [] →
-      ∀ i ∈ p.conns, (p.net i).broken = false → (p.net i).serverKs = p.currentKs := by
-  intro p hov ht
-  have hs := (reachable_inv perShard target ks0 evs).strong hov
-  unfold Strong at hs
-  rw [ht] at hs
-  exact hs
+    have hin : i ∈ L'.snapshot := h.sub_snap L' (by rw [htasks]; exact List.mem_cons_self) i hsub
+    exact ((hs.2.2 i hi hb hm).2 hin).2 hal hsub hlk
 
 /-- **success_means_all_acked** (no discipline assumed, overlapping requests included): when ANY
 use-keyspace request has been answered Ok, every connection that was published when the request arrived
@@ -265,7 +253,7 @@ theorem success_means_all_acked (perShard : Bool) (target : Nat) (ks0 : Option K
       t.ks ∈ (p.net i).acked := by
   intro p t ht hr i hi hb
   have h : Inv p := reachable_inv perShard target ks0 evs
-  exact h.res_ok t ht i (results_of_resp h t ht (Or.inl hr) i hi hb)
+  exact h.res_ok t ht i (results_ok_of_resp h t ht (Or.inl hr) i hi hb)
 
 /-- An Ok answer is never given while a result is missing or is an error other than a broken connection;
 a broken-connection result is only recorded for a connection that IS broken (it is leaving the pool). -/
@@ -277,7 +265,7 @@ theorem ok_answer_sound (perShard : Bool) (target : Nat) (ks0 : Option K) (evs :
   intro p t ht hr i hi
   have h : Inv p := reachable_inv perShard target ks0 evs
   cases hb : (p.net i).broken with
-  | false => exact Or.inl (results_of_resp h t ht (Or.inl hr) i hi hb)
+  | false => exact Or.inl (results_ok_of_resp h t ht (Or.inl hr) i hi hb)
   | true =>
     rcases h.resp t ht _ hr with ⟨hnil, _⟩ | h2 | ⟨hdone, hres⟩
     · rw [hnil] at hi; cases hi
@@ -294,10 +282,11 @@ are disjoint, and a connection in `setting` is in no task's snapshot: a new conn
 server has acknowledged the current keyspace on it. -/
 theorem new_connection_private (perShard : Bool) (target : Nat) (ks0 : Option K) (evs : List (Ev K)) :
     let p := run (Pool.init perShard target ks0) evs
-    ∀ e ∈ p.setting, e.1 ∉ p.conns ∧ (∀ t ∈ p.tasks, e.1 ∉ t.snapshot) ∧ p.currentKs ≠ none := by
+    ∀ e ∈ p.setting, e.1 ∉ p.conns ∧ (∀ t ∈ p.tasks, e.1 ∉ t.snapshot) ∧ p.currentKs ≠ none ∧
+      (p.net e.1).queue = [] := by
   intro p e he
   have h : Inv p := reachable_inv perShard target ks0 evs
-  exact ⟨(h.priv e he).1, (h.priv e he).2, h.setting_cur e he⟩
+  exact ⟨(h.priv e he).1, (h.priv e he).2, h.setting_cur e he, (h.setting_clean e he).1⟩
 
 /-- **publish_only_with_current_keyspace** — whatever the event and whatever happened before: a connection
 that enters the published list in a step has, at that moment, exactly the pool's current keyspace set at the
@@ -309,44 +298,128 @@ theorem publish_only_with_current_keyspace (perShard : Bool) (target : Nat) (ks0
   intro p j hj hn
   exact publish_step (reachable_inv perShard target ks0 evs) e j hj hn
 
+/-! ### user-issued `USE x` (a statement sent through `Session::query*`, session.rs:1465-1478)
+
+The statement is written on ONE published connection; when the node acknowledges it that connection's keyspace
+is `x` while the pool's current keyspace is still the old one. The session then calls `use_keyspace(x)` itself.
+What holds: -/
+
+/-- The user statement touches nothing but the connection it is written on: no other connection, no task, not
+the pool's current keyspace, not the published list. -/
+theorem user_use_is_local (p : Pool K) (i : Nat) (x : K) :
+    let q := step p (.userUse i x)
+    (∀ j, j ≠ i → q.net j = p.net j) ∧ q.tasks = p.tasks ∧ q.currentKs = p.currentKs ∧ q.conns = p.conns ∧
+    q.setting = p.setting ∧ (q.net i).serverKs = (p.net i).serverKs := by
+  simp only [step]
+  split
+  · refine ⟨fun j hj => by simp [setConn, hj], rfl, rfl, rfl, rfl, by simp [setConn]⟩
+  · exact ⟨fun _ _ => rfl, rfl, rfl, rfl, rfl, rfl⟩
+
+/-- It marks the connection (`published_has_keyspace` then claims nothing about it), and the mark is removed
+exactly when the newest use-keyspace task writes its own `USE` behind it: from then on the connection is
+covered again, and FIFO order guarantees the task's keyspace wins. So after the session's follow-up
+`use_keyspace(x)` has been answered Ok, `published_has_keyspace` covers every published live connection on
+which no further user `USE` was written. -/
+theorem newest_submit_clears_mark (p : Pool K) (L : Keyspace.Task K) (rest : List (Keyspace.Task K)) (i : Nat)
+    (ht : p.tasks = L :: rest) (hal : L.resp = none) (hin : i ∈ L.snapshot) (hns : i ∉ L.submitted)
+    (hb : (p.net i).broken = false) :
+    let q := step p (.taskSubmit L.id i)
+    (q.net i).userMark = false ∧ (q.net i).queue = (p.net i).queue ++ [(.task L.id, L.ks)] := by
+  simp only [step, findTask, ht, List.find?_cons, decide_true, List.head?_cons, Option.map_some, beq_self_eq_true,
+    hal, Option.isSome_none, List.contains_eq_mem, hin, hns, decide_false, decide_true,
+    Bool.not_true, Bool.or_self, Bool.false_eq_true, ↓reduceIte, hb, setConn]
+  exact ⟨trivial, trivial⟩
+
 /-! non-vacuity: a use-keyspace request races with a refill. The connection opened meanwhile (id 1) is held in
 `setting` until the server acknowledged the keyspace, and only then published. -/
 private def evsA : List (Ev Nat) :=
-  [.refill, .opened 0 none false, .refill, .useKs 7, .opened 0 none false, .taskUse 0 0 .ack, .taskFinish 0,
-   .ksSet 1 .ack]
+  [.refill, .opened 0 none none, .refill, .useKs 7, .opened 0 none none, .taskSubmit 0 0, .serve 0 .ack,
+   .taskFinish 0, .ksSet 1 .ack]
 
 example : let p := run (Pool.init false 2 (none : Option Nat)) evsA
     p.overlap = false ∧ (p.latest.map (·.resp)) = some (some .ok) ∧ p.conns = [0, 1] ∧
-    (p.net 0).serverKs = some 7 ∧ (p.net 1).serverKs = some 7 ∧ (p.net 1).acked = [7] := by decide
+    (p.net 0).serverKs = some 7 ∧ (p.net 1).serverKs = some 7 ∧ (p.net 1).acked = [7] ∧
+    (p.net 0).queue = [] ∧ (p.net 0).userMark = false := by decide
 
 example : let p := run (Pool.init false 2 (none : Option Nat)) evsA.dropLast
-    (p.latest.map (·.resp)) = some (some .ok) ∧ p.conns = [0] ∧ p.setting = [(1, 7, false)] ∧
+    (p.latest.map (·.resp)) = some (some .ok) ∧ p.conns = [0] ∧ p.setting = [(1, 7, none)] ∧
     (p.net 1).serverKs = none := by decide
 
 /-- connection 0 breaks while the `USE` is on it, the other acknowledges: Ok, and the broken one leaves -/
 private def evsBreak : List (Ev Nat) :=
-  [.refill, .opened 0 none false, .refill, .opened 0 none false, .useKs 3, .breakConn 0, .taskUse 0 0 .ack,
-   .taskUse 0 1 .ack, .taskFinish 0, .connError 0]
+  [.refill, .opened 0 none none, .refill, .opened 0 none none, .useKs 3, .taskSubmit 0 0, .taskSubmit 0 1,
+   .breakConn 0, .serve 0 .ack, .serve 1 .ack, .taskFinish 0, .connError 0]
 example : let p := run (Pool.init false 2 (none : Option Nat)) evsBreak
     (p.latest.map (·.resp)) = some (some .ok) ∧ p.conns = [1] ∧ (p.net 1).serverKs = some 3 := by decide
 
 /-- The hypothesis `overlap = false` is needed (and is what the documentation of `Session::use_keyspace` asks
-for): two overlapping requests, both answered Ok, can leave a live published connection in the OTHER keyspace. -/
+for): two overlapping requests, both answered Ok, can leave a live published connection in the OTHER keyspace
+(the second task writes its `USE` first). -/
 private def evsOverlap : List (Ev Nat) :=
-  [.refill, .opened 0 none false, .useKs 1, .useKs 2, .taskUse 1 0 .ack, .taskUse 0 0 .ack, .taskFinish 0,
-   .taskFinish 1]
+  [.refill, .opened 0 none none, .useKs 1, .useKs 2, .taskSubmit 1 0, .taskSubmit 0 0, .serve 0 .ack, .serve 0 .ack,
+   .taskFinish 0, .taskFinish 1]
 example : let p := run (Pool.init false 1 (none : Option Nat)) evsOverlap
     p.overlap = true ∧ p.tasks.map (·.resp) = [some .ok, some .ok] ∧ p.currentKs = some 2 ∧ p.conns = [0] ∧
-    (p.net 0).broken = false ∧ (p.net 0).serverKs = some 1 := by decide
+    (p.net 0).broken = false ∧ (p.net 0).serverKs = some 1 ∧ (p.net 0).queue = [] := by decide
+
+/-- ... and the ghost is NOT sticky: once the overlap has drained, the next request (arriving with nothing
+unanswered) has `overlap = false` again and the theorem applies to it - the history went through an overlap
+and recovered. -/
+private def evsRecover : List (Ev Nat) := evsOverlap ++ [.useKs 3, .taskSubmit 2 0, .serve 0 .ack, .taskFinish 2]
+example : let p := run (Pool.init false 1 (none : Option Nat)) evsRecover
+    p.overlap = false ∧ (p.latest.map (·.resp)) = some (some .ok) ∧ p.currentKs = some 3 ∧ p.conns = [0] ∧
+    (p.net 0).broken = false ∧ (p.net 0).userMark = false ∧ (p.net 0).serverKs = some 3 ∧
+    (p.net 0).queue = [] := by decide
+
+/-- A `USE` left in flight by a timed-out request is representable and is served BEFORE the next request's
+(FIFO): request 0 (keyspace 1) times out with its `USE` unanswered, request 1 (keyspace 2, no overlap) writes its
+own behind it; the node answers both in order; the connection ends in keyspace 2, both acknowledged. -/
+private def evsStale : List (Ev Nat) :=
+  [.refill, .opened 0 none none, .useKs 1, .taskSubmit 0 0, .taskTimeout 0, .useKs 2, .taskSubmit 1 0]
+example : let p := run (Pool.init false 1 (none : Option Nat)) evsStale
+    p.overlap = false ∧ p.tasks.map (·.resp) = [none, some (.err .timeout)] ∧
+    (p.net 0).queue = [(.task 0, 1), (.task 1, 2)] ∧ (p.net 0).serverKs = none := by decide
+private def evsStale2 : List (Ev Nat) := evsStale ++ [.serve 0 .ack, .serve 0 .ack, .taskFinish 1]
+example : let p := run (Pool.init false 1 (none : Option Nat)) evsStale2
+    p.overlap = false ∧ p.tasks.map (·.resp) = [some .ok, some (.err .timeout)] ∧
+    (p.net 0).queue = [] ∧ (p.net 0).serverKs = some 2 ∧ (p.net 0).acked = [1, 2] := by decide
+
+/-- A user `USE 9` on the published connection: until the follow-up request it is in keyspace 9 while the pool's
+current keyspace is 5 (marked, so nothing is claimed); the session's `use_keyspace(9)` brings everything back. -/
+private def evsUser : List (Ev Nat) :=
+  [.refill, .opened 0 none none, .useKs 5, .taskSubmit 0 0, .serve 0 .ack, .taskFinish 0, .userUse 0 9, .serve 0 .ack]
+example : let p := run (Pool.init false 1 (none : Option Nat)) evsUser
+    p.overlap = false ∧ (p.latest.map (·.resp)) = some (some .ok) ∧ p.currentKs = some 5 ∧
+    (p.net 0).serverKs = some 9 ∧ (p.net 0).userMark = true := by decide
+private def evsUser2 : List (Ev Nat) := evsUser ++ [.useKs 9, .taskSubmit 1 0, .serve 0 .ack, .taskFinish 1]
+example : let p := run (Pool.init false 1 (none : Option Nat)) evsUser2
+    p.overlap = false ∧ (p.latest.map (·.resp)) = some (some .ok) ∧ p.currentKs = some 9 ∧
+    (p.net 0).serverKs = some 9 ∧ (p.net 0).userMark = false ∧ (p.net 0).queue = [] := by decide
 
 /-- A request whose `USE` the server rejects on one connection is answered with the error, and that
 connection stays published in its old keyspace (a failed call may leave the pool mixed - as documented). -/
 private def evsReject : List (Ev Nat) :=
-  [.refill, .opened 0 none false, .ksSet 0 .ack, .refill, .opened 0 none false, .ksSet 1 .ack,
-   .useKs 2, .taskUse 0 0 .ack, .taskUse 0 1 .dbError, .taskFinish 0]
+  [.refill, .opened 0 none none, .ksSet 0 .ack, .refill, .opened 0 none none, .ksSet 1 .ack,
+   .useKs 2, .taskSubmit 0 0, .taskSubmit 0 1, .serve 0 .ack, .serve 1 .dbError, .taskFinish 0]
 example : let p := run (Pool.init false 2 (some 1 : Option Nat)) evsReject
     (p.latest.map (·.resp)) = some (some (.err .dbError)) ∧ p.conns = [0, 1] ∧
     (p.net 0).serverKs = some 2 ∧ (p.net 1).serverKs = some 1 := by decide
+
+/-- The refiller's other paths: a requested-shard miss blocks advanced shard awareness and the connection is
+dropped and retried; an unrequested connection to a full shard is kept as excess until the pool is full; a
+sharder change throws the published connections away. In all of them nothing is published without the
+current keyspace. -/
+private def evsPaths : List (Ev Nat) :=
+  [.useKs 4, .refill, .opened 0 (some 2) none, .ksSet 0 .ack, .refill, .opened 0 (some 2) (some 1), .ksSet 1 .ack,
+   .opened 0 (some 2) none, .ksSet 2 .ack]
+example : let p := run (Pool.init true 1 (none : Option Nat)) evsPaths
+    p.conns = [0] ∧ p.blocked = true ∧ (p.net 1).broken = true ∧ p.excess = [2] ∧ p.opening = 0 ∧
+    (p.net 2).serverKs = some 4 := by decide
+private def evsPaths2 : List (Ev Nat) :=
+  evsPaths ++ [.refill, .opened 1 (some 2) none, .ksSet 3 .ack, .breakConn 3, .connError 3, .refill,
+    .opened 0 (some 3) none, .ksSet 4 .ack]
+example : let p := run (Pool.init true 1 (none : Option Nat)) evsPaths2
+    p.sharder = some 3 ∧ p.conns = [4] ∧ p.excess = [] ∧ (p.net 4).serverKs = some 4 := by decide
 
 /-! ## D. The cluster worker: use-keyspace requests, their fan-out over the known nodes, deliveries to the
 nodes' refillers in any order, every pool event of every node, node addition and removal -/
@@ -390,7 +463,7 @@ theorem cluster_success_means_all_acked (perShard : Bool) (target : Nat) (evs : 
   obtain ⟨t, ht, hks, hresp⟩ := hc.fan f hf hr n hn
   refine ⟨t, ht, hks, hresp, fun i hi hb => ?_⟩
   rw [← hks]
-  exact (hc.pools n).res_ok t ht i (results_of_resp (hc.pools n) t ht hresp i hi hb)
+  exact (hc.pools n).res_ok t ht i (results_ok_of_resp (hc.pools n) t ht hresp i hi hb)
 
 /-- **cluster_published_has_keyspace** — the property at session level. For every interleaving of
 `Session::use_keyspace` requests, their deliveries to the nodes' refillers (in any order), every pool / task /
@@ -405,24 +478,34 @@ theorem cluster_published_has_keyspace (perShard : Bool) (target : Nat) (evs : L
     let c := crun (Cluster.init perShard target : Cluster K) evs
     c.overlap = false → ∀ F, c.fanouts.head? = some F → F.resp = some .ok →
       ∀ n ∈ c.known, ∀ i ∈ (c.pools n).conns, ((c.pools n).net i).broken = false →
-        ((c.pools n).net i).serverKs = some F.ks := by
+        ((c.pools n).net i).userMark = false →
+        ((c.pools n).net i).serverKs = some F.ks ∧ ((c.pools n).net i).queue = [] := by
   intro c hov F hF hr
-  obtain ⟨h1, h2, h3⟩ := cluster_run_invs perShard target evs
-  exact cluster_published h1 h2 (h3 hov) F hF hr
+  obtain ⟨h1, h2, _, h4⟩ := cluster_run_invs perShard target evs
+  exact cluster_published h1 h2 (h4 hov) F hF hr
 
-/-- Under the same hypothesis no pool has seen two overlapping requests (so `published_has_keyspace` applies
-to each pool), whatever the answer of the newest fan-out. -/
+/-- Under the same hypothesis (the NEWEST fan-out did not overlap an older one - the ghost is re-evaluated at
+every request, so past overlaps do not matter once drained) every pool that has received the fan-out's request
+received it while none of its own requests was unanswered: `published_has_keyspace` applies to it. -/
 theorem cluster_no_pool_overlap (perShard : Bool) (target : Nat) (evs : List (CEv K)) :
     let c := crun (Cluster.init perShard target : Cluster K) evs
-    c.overlap = false → ∀ n, (c.pools n).overlap = false := by
-  intro c hov
-  exact ((cluster_run_invs perShard target evs).2.2 hov).1
-
+    c.overlap = false → ∀ F, c.fanouts.head? = some F → ∀ n tid, F.sent.lookup n = some tid →
+      (c.pools n).overlap = false ∧ ∃ L, (c.pools n).latest = some L ∧ L.id = tid := by
+  intro c hov F hF n tid hl
+  have hs := (cluster_run_invs perShard target evs).2.2.2 hov
+  unfold CStrong at hs
+  cases hfs : c.fanouts with
+  | nil => rw [hfs] at hF; cases hF
+  | cons F' rest =>
+    rw [hfs] at hF hs
+    simp only [List.head?_cons, Option.some.injEq] at hF
+    subst hF
+    exact hs.2.1 n tid hl
 
 private def cevs : List (CEv Nat) :=
-  [.addNode false 1, .pool 0 .refill, .pool 0 (.opened 0 none false), .useKs 5, .addNode false 1,
-   .deliver 0 0, .pool 0 (.taskUse 0 0 .ack), .pool 0 (.taskFinish 0), .fanoutFinish 0,
-   .pool 1 .refill, .pool 1 (.opened 0 none false), .pool 1 (.ksSet 0 .ack)]
+  [.addNode false 1, .pool 0 .refill, .pool 0 (.opened 0 none none), .useKs 5, .addNode false 1,
+   .deliver 0 0, .pool 0 (.taskSubmit 0 0), .pool 0 (.serve 0 .ack), .pool 0 (.taskFinish 0), .fanoutFinish 0,
+   .pool 1 .refill, .pool 1 (.opened 0 none none), .pool 1 (.ksSet 0 .ack)]
 
 example : let c := crun (Cluster.init false 1 : Cluster Nat) cevs
     c.overlap = false ∧ c.fanouts.map (·.resp) = [some .ok] ∧ c.known = [0, 1] ∧ (c.pools 1).currentKs = some 5 ∧
